@@ -244,8 +244,11 @@ func (t *Tasks) UnmarshalYAML(node *yaml.Node) error {
 }
 
 func taskNameWithNamespace(taskName string, namespace string) string {
+	// A leading separator refers to a task of the root Taskfile. It is kept
+	// until the task is looked up: stripping it here would turn it into a
+	// plain name that gets prefixed when this Taskfile is itself included.
 	if strings.HasPrefix(taskName, NamespaceSeparator) {
-		return strings.TrimPrefix(taskName, NamespaceSeparator)
+		return taskName
 	}
 	return fmt.Sprintf("%s%s%s", namespace, NamespaceSeparator, taskName)
 }
